@@ -251,7 +251,7 @@ func runRecord(path string, seed int64, ntraces, steps, na, ns, ripemd int, sum 
 		g := sk.DefaultGen()
 		g.NoIRoot = true
 		g.TxLen = 10 + r.Intn(12)
-		w := u.RandomWorld(r, g.MaxCode)
+		w := u.RandomWorldX(r, g.MaxCode, false) // EIP-7523: no empty accounts in Amsterdam states
 		env := envFor(t)
 		m, err := sk.NewMachine(u, env, "amsterdam", w)
 		if err != nil {
